@@ -47,9 +47,9 @@ theorem step_other {w w' : World} {a : Nat} {act : Act} (h : step w a act = some
     | (injection h with h; subst h; simp [hb])
     | (cases h)
 
-/-- an action of agent `a` changes only the socket path of `a`'s own DAG file -/
+/-- an action of agent `a` changes only the socket path of `a`'s own spelling of the DAG file's path -/
 theorem step_ns_other {w w' : World} {a : Nat} {act : Act} (h : step w a act = some w') (e : Nat)
-    (he : e ≠ (w.agents a).dag) : w'.ns e = w.ns e := by
+    (he : e ≠ (w.agents a).sock) : w'.ns e = w.ns e := by
   unfold step stepAg at h
   split at h <;> (try split at h) <;> (try split at h) <;> (try split at h) <;>
     first
@@ -65,6 +65,18 @@ theorem refused_terminal {w : World} {a : Nat} (h : (w.agents a).pc = .refused) 
 /-- the agent's DAG never changes -/
 theorem step_dag {w w' : World} {a : Nat} {act : Act} (h : step w a act = some w') (b : Nat) :
     (w'.agents b).dag = (w.agents b).dag := by
+  by_cases hb : b = a
+  · subst hb
+    unfold step stepAg at h
+    split at h <;> (try split at h) <;> (try split at h) <;> (try split at h) <;>
+      first
+      | (injection h with h; subst h; simp [didStep, didHandler])
+      | (cases h)
+  · rw [step_other h b hb]
+
+/-- the agent's socket name never changes -/
+theorem step_sock {w w' : World} {a : Nat} {act : Act} (h : step w a act = some w') (b : Nat) :
+    (w'.agents b).sock = (w.agents b).sock := by
   by_cases hb : b = a
   · subst hb
     unfold step stepAg at h
@@ -167,7 +179,7 @@ def ownerOk : Bool → Pc → Bool
   unfold afterListen; split <;> (try split) <;> rfl
 
 def OwnerInv (w : World) : Prop :=
-  ∀ d a l, w.ns d = .bound a l → (w.agents a).dag = d ∧ ownerOk l (w.agents a).pc = true
+  ∀ d a l, w.ns d = .bound a l → (w.agents a).sock = d ∧ ownerOk l (w.agents a).pc = true
 
 theorem step_owner {w w' : World} {c : Nat} {act : Act} (inv : OwnerInv w) (h : step w c act = some w') :
     OwnerInv w' := by
@@ -177,7 +189,7 @@ theorem step_owner {w w' : World} {c : Nat} {act : Act} (inv : OwnerInv w) (h : 
   all_goals first | (cases h; done) | skip
   all_goals (injection h with h; subst h)
   all_goals
-    by_cases hd : d = (w.agents c).dag <;> by_cases ha : a = c
+    by_cases hd : d = (w.agents c).sock <;> by_cases ha : a = c
   all_goals (try subst hd) <;> (try subst ha)
   all_goals (simp [*, setNs, setAgent] at hns ⊢)
   all_goals first
